@@ -100,6 +100,17 @@ func chainTrees() []*ukit.Spec {
 		scope("Root", one("Root", "a", ref("A", "")), one("A", "in", scope("I", one("I", "x", ref("A", "")), one("A", "v", leaf())))),
 		// the same object reached twice on one chain is a real cycle and must stay rejected: Root.a -> A -> A ...
 		scope("Root", one("Root", "a", ref("A", "")), one("A", "again", ref("A", ""))),
+		// a struct-mapped root whose absent map-typed field is filled with the defaults of the objects below it; the
+		// same object is referenced twice in that sub-tree (siblings; cousins): being used twice is not a cycle
+		scope("Root",
+			&ukit.Spec{Kind: ukit.KObject, ID: "Root", Struct: "SLink", Props: []ukit.Prop{{Name: "name", Type: &ukit.Spec{Kind: ukit.KString}, Required: true}, {Name: "link", Type: ref("Link", "")}}},
+			&ukit.Spec{Kind: ukit.KObject, ID: "Link", Props: []ukit.Prop{{Name: "src", Type: ref("Ep", "")}, {Name: "dst", Type: ref("Ep", "")}}},
+			&ukit.Spec{Kind: ukit.KObject, ID: "Ep", Props: []ukit.Prop{{Name: "port", Type: leaf(), Default: ukit.Str("5")}, {Name: "host", Type: &ukit.Spec{Kind: ukit.KString}}}}),
+		scope("Root",
+			&ukit.Spec{Kind: ukit.KObject, ID: "Root", Struct: "SLink", Props: []ukit.Prop{{Name: "name", Type: &ukit.Spec{Kind: ukit.KString}, Required: true}, {Name: "link", Type: ref("Link", ""), Required: true}}},
+			&ukit.Spec{Kind: ukit.KObject, ID: "Link", Props: []ukit.Prop{{Name: "a", Type: ref("MidA", ""), Required: true}, {Name: "b", Type: ref("MidB", ""), Required: true}}},
+			one("MidA", "e", ref("Ep", "")), one("MidB", "e", ref("Ep", "")),
+			&ukit.Spec{Kind: ukit.KObject, ID: "Ep", Props: []ukit.Prop{{Name: "port", Type: leaf(), Default: ukit.Str("5")}}}),
 	}
 }
 
@@ -354,7 +365,9 @@ func checkTree(spec *ukit.Spec, idx int, res *ux.Result) {
 		twin := ukit.BuildScope(twinSpec)
 		// the same tree as an engine gets it: described, loaded from the description, the same namespaces applied
 		var loaded *schema.ScopeSchema
-		if d, err := b.scope.SelfSerialize(); err != nil {
+		if !ukit.PureMapBased(s) {
+			// a struct-mapped tree and its (map-based) loaded copy do not denote the same values
+		} else if d, err := b.scope.SelfSerialize(); err != nil {
 			fail("a linked tree cannot describe itself", err.Error(), fullyLinkedSeq)
 		} else if l, err := schema.UnserializeScope(d); err != nil {
 			fail("a linked tree's own description is rejected", err.Error(), fullyLinkedSeq)
